@@ -25,13 +25,13 @@ META = {
  'C06': ('transition coverage of the walk automaton of every order-1 arc-subset graph on the real decoder (9 symbols incl. foreign and whitespace) + brute-force strings + all single edits of short walks + long strands on order 3-5 graphs',
          'every (vertex, symbol) transition including rejection and dead vertices on every graph class; bit lengths incl. 0 and the tight fast-mode width; checks of length 2, 33, 40; both modes, with and without a table; exception type checked',
          'acceptance assumed to depend on (vertex, next symbol) only; cross-checked by brute force on small classes'),
- 'C07': ('exhaustive strands up to length 8 x check lengths against the VT definition; finite-state VT automaton explored completely with every transition replayed on set_vt',
+ 'C07': ('exhaustive strands up to length 8 x check lengths against the VT definition; long strands straddling ascent sums of 2^16/2^31/2^32 x check lengths to 40; finite-state VT automaton explored completely with every transition replayed on set_vt',
          'the automaton argument covers strands of any length for check lengths <= 3; all single substitutions and C/G/T indels enumerated',
          'reference vt cross-checked against a second formulation'),
  'C08': ('bounded-exhaustive fault enumeration: all single edits (and spaced double edits) of deviation-bounded and rule-generated long walks on generated graphs of order 1-5, repaired by the real repair_dna',
          'every interior position, edit kind and replacement nucleotide per walk; order-2 generated graphs taken per (vertex count, threshold) stratum',
          'nothing is claimed beyond the listed graphs; loop budgets guard termination'),
- 'C09': ('bounded-exhaustive: every walk and every string up to length n on small graph universes x options, long clean walks, double edits and many-error strands with checks',
+ 'C09': ('bounded-exhaustive: every walk and every string up to length n on small graph universes x options, long clean walks (also on rule-built graphs of order 8-9), double edits and many-error strands with checks',
          'clean strands returned untouched; candidates sorted, duplicate-free and check-consistent on both return paths, for heap limits 0-1000',
          'orders 1-5'),
  'C10': ('bounded-exhaustive termination check under deterministic loop budgets: all ACGT strings up to length n x graphs x every start x options, plus complete families of long strands with m = 0..130 isolated errors (many-candidate and single-candidate sites)',
@@ -40,7 +40,7 @@ META = {
  'C11': ('exhaustive: all 2^16 order-2 masks for the valid graph; filter menu x k for vertex discovery incl. user-defined filters',
          'mask[i] <=> filter verdict on the i-th k-mer, arcs exactly between marked shift-neighbours',
          'filters from an enumerated menu'),
- 'C12': ('exhaustive strings up to length 6 (8) x configuration grid against an exact-rational reference predicate; wide and huge windows; long strings; same-instance histories',
+ 'C12': ('exhaustive strings up to length 6 (8) x configuration grid against an exact-rational reference predicate; wide and huge windows; long strings up to 1100 nt; same-instance histories',
          'all strings over ACGT (+ foreign characters) for every configuration of the grid; 28 decimals on windows up to 12; windows of 100-256 nucleotides; one instance judged on growing strands',
          'GC bounds are read as the decimals written'),
  'C13': ('exhaustive enumeration of every vertex of every order 1..8 (9) against string slicing; whole-array check of the complete accessor at orders 9-10 (11)',
@@ -55,13 +55,13 @@ META = {
  'C16': ('exhaustive bit arrays up to length 14 (16) and DNA strings up to length 7 (8), long family to 1024 (4096) bits, leading-zero sweeps, multiples of powers of ten, a 4312-digit decimal string',
          'round trips, str path == int path, padding',
          'integer path exercised with Python ints as documented'),
- 'C17': ('exhaustive graphs (all order-1 arc subsets, order-2 vertex-induced, an order 3-5 family) x repeats x finite seed menu against a certified Collatz-Wielandt enclosure',
+ 'C17': ('exhaustive graphs (all order-1 arc subsets, order-2 vertex-induced, an order 3-5 family) x repeats x finite seed menu, plus all single-start call histories of 2-3 equal-sized sub-alphabet graphs at orders 3-4, against a certified Collatz-Wielandt enclosure',
          'a continuum of initial vectors cannot be enumerated; the owned environment answer is the seeded numpy RNG',
          'precondition decided by own SCC/period and a conservative spectral-gap margin'),
- 'C18': ('exhaustive: k=1..6 x seed menu; all 24 rows x 15 live patterns x all digits on the real encode/decode; multi-step walks under constant-row tables',
+ 'C18': ('exhaustive: k=1..6 x seed menu; all call histories of 2-3 calls over k x seed (each in its own forked process, compared with the call made alone); all 24 rows x 15 live patterns x all digits on the real encode/decode; multi-step walks under constant-row tables',
          'the induced digit map is decided completely; reproducibility across interleaved seeds, after the caller overwrote a result',
          'seeds from a finite menu'),
- 'C19': ('reachable-state search (state hashing on accessor bytes) over arc-removal call sequences on generated graphs; the invariant - one existing arc removed, maximum of an independent reference score, both views equal - is evaluated on every transition',
+ 'C19': ('reachable-state search (state hashing on accessor bytes) over arc-removal call sequences on generated graphs of order 2-3 and depth-bounded sequences at order 4; the invariant - one existing arc removed, maximum of an independent reference score, both views equal - is evaluated on every transition',
          'pure flag sequences to the first raising call and mixed sequences with <= 2 changes of (flag combination, successor-list order); the library score function is additionally compared with the reference on every pre-state',
          'orders 2-3; mixed sequences capped per graph (cap reported); reference score re-implements the pinned scoring formula and agreed with it on every explored state'),
  'C20': ('explicit-state search over call histories on shared arguments: depth 1-2 exhaustive over 54 operations, depth 3 over core operations, plus histories with a caller-overwritten result, an in-place arc removal (and its undoing) and a second argument set of the same order in between; every call compared with a fresh-process reference',
